@@ -220,6 +220,16 @@ def newRangedPool (rx ry ps : Int) (minP maxP : Dec) : M RPool := do
 def rangedPrice (p : RPool) : M Dec :=
   if p.rx = 0 ∧ p.ry = 0 then .error .panic else quo p.xComp p.yComp
 
+/-- `RangedPool.SetBalances(rx, ry, derive)` (pool.go:301-310): with `derive = false` the translation is KEPT (the pool
+moves along its own curve — this is how `PoolBuyOrders` / `PoolSellOrders` walk a pool through the ticks of one batch);
+with `derive = true` it is recomputed from the new reserves by `DeriveTranslation` (the first catch-up order of a batch,
+and — through `NewRangedPool` — every construction of the pool object from the bank balances in the next block). -/
+def setBalances (p : RPool) (rx ry : Int) (derive : Bool) : M RPool := do
+  let (tx, ty) ← if derive then deriveTranslation rx ry p.minP p.maxP else pure (p.transX, p.transY)
+  let xc ← add (toDec rx) tx
+  let yc ← add (toDec ry) ty
+  pure { p with rx := rx, ry := ry, transX := tx, transY := ty, xComp := xc, yComp := yc }
+
 /-- the accepted amounts `(ax, ay)` of `CreateRangedPool` -/
 def createAmounts (x y : Int) (minP maxP initP : Dec) : M (Int × Int) :=
   if initP = minP then pure (0, y)            -- single y asset pool
